@@ -22,4 +22,5 @@ def main(tier):
     chk.run("R-SRCLOC", R.srcloc, r, floor=4)
     chk.run("R-LOCENCODE", R.locencode, r, floor=1)
     chk.run("R-DRIVERS", R.drivers, r, floor=6)
+    chk.run("R-DRIVERFLAGS", R.driverflags, r, floor=4)
     return chk.finish()
